@@ -362,10 +362,212 @@ def rule_r4(repo):
     return rr
 
 
+class TextInterp(Interp):
+    """Renderers and text readers on concrete node trees / lines (format() renders descriptors through their own __str__)."""
+    LIST_CAP = 400
+    MAX_DEPTH = 40
+
+    def on_load_attr(self, base, attr, node, frame):
+        from sa.patheval import ModRef
+        if isinstance(base, ModRef) and base.name == 'six':
+            if attr == 'PY2':
+                return False
+            if attr == 'PY3':
+                return True
+            if attr == 'binary_type':
+                return ('builtin', 'bytes')
+            if attr == 'text_type':
+                return ('builtin', 'str')
+        return self.NOT_HANDLED
+
+    def on_while(self, node, frame):
+        return self.unroll_while(node, frame, 400)
+
+    def _str(self, v, node, frame):
+        if isinstance(v, Obj) and self.repo.has_cls(v.cls):
+            fi = self.repo.method(v.cls, '__str__', required=False)
+            if fi is not None:
+                return self.call_function(fi, [v], {}, node, frame)
+        return v
+
+    def on_call(self, text, callee, args, kwargs, node, frame):
+        from sa.patheval import UnknownMethod, Raise
+        if isinstance(callee, UnknownMethod) and callee.name == 'format' and isinstance(callee.recv, str):
+            a = [self._str(x, node, frame) for x in args]
+            kw = dict((k, self._str(x, node, frame)) for k, x in kwargs.items())
+            try:
+                return callee.recv.format(*a, **kw)
+            except Exception:
+                return Top('str')
+        if text == 'str' and args and isinstance(args[0], Obj):
+            return self._str(args[0], node, frame)
+        if text == 'ast.literal_eval':
+            import ast as _ast
+            if isinstance(args[0], str):
+                try:
+                    return _ast.literal_eval(args[0])
+                except ValueError:
+                    raise Raise('ValueError', node, self.where(node, frame))
+                except SyntaxError:
+                    raise Raise('SyntaxError', node, self.where(node, frame))
+            return Top('literal')
+        return self.NOT_HANDLED
+
+
+def _elem(i, name, unit='NUMERIC', nbits=8):
+    return Obj('ElementDescriptor', {'id': i, 'name': name, 'unit': unit, 'nbits': nbits, 'scale': 0, 'refval': 0})
+
+
+def text_tree():
+    """A node tree covering every line kind of the nested text, with its flat descriptor / value lists."""
+    descs, vals = [], []
+
+    def add(d, v):
+        descs.append(d)
+        vals.append(v)
+        return len(vals) - 1
+    nodes = []
+    nodes.append(Obj('ValueDataNode', {'descriptor': _elem(1015, 'STATION OR SITE NAME', 'CCITT IA5', 160), 'index': add(_elem(1015, 'STATION OR SITE NAME', 'CCITT IA5', 160), b"ST JOHN'S")}))
+    nodes.append(Obj('ValueDataNode', {'descriptor': _elem(1019, 'LONG NAME', 'CCITT IA5', 80), 'index': add(_elem(1019, 'LONG NAME', 'CCITT IA5', 80), b'say "hi" b\'x')}))
+    nodes.append(Obj('ValueDataNode', {'descriptor': _elem(1018, 'SHORT NAME', 'CCITT IA5', 40), 'index': add(_elem(1018, 'SHORT NAME', 'CCITT IA5', 40), b'a b ')}))
+    nodes.append(Obj('ValueDataNode', {'descriptor': _elem(1011, 'CALL SIGN', 'CCITT IA5', 16), 'index': add(_elem(1011, 'CALL SIGN', 'CCITT IA5', 16), b'\xe9\xff')}))
+    nodes.append(Obj('NoValueDataNode', {'descriptor': Obj('OperatorDescriptor', {'id': 201130})}))
+    nodes.append(Obj('ValueDataNode', {'descriptor': _elem(12101, 'TEMPERATURE'), 'index': add(_elem(12101, 'TEMPERATURE'), 271.5)}))
+    nodes.append(Obj('ValueDataNode', {'descriptor': _elem(12102, 'WET BULB'), 'index': add(_elem(12102, 'WET BULB'), None)}))
+    nodes.append(Obj('ValueDataNode', {'descriptor': _elem(5001, 'LATITUDE'), 'index': add(_elem(5001, 'LATITUDE'), -33.5)}))
+    nodes.append(Obj('ValueDataNode', {'descriptor': _elem(20003, 'PRESENT WEATHER', 'CODE TABLE'), 'index': add(_elem(20003, 'PRESENT WEATHER', 'CODE TABLE'), 0)}))
+    # associated field + owner (flat order: associated first)
+    ia = add(Obj('AssociatedDescriptor', {'id': 10004, 'nbits': 4, 'unit': 'ASSOCIATED'}), 3)
+    io = add(_elem(10004, 'PRESSURE'), 1013)
+    meaning = Obj('ValueDataNode', {'descriptor': _elem(31021, 'ASSOCIATED FIELD SIGNIFICANCE'), 'index': 99})
+    assoc = Obj('AssociatedFieldNode', {'descriptor': descs[ia], 'index': ia, 'attributes': []})
+    nodes.append(Obj('ValueDataNode', {'descriptor': descs[io], 'index': io, 'attributes': [assoc]}))
+    # sequence with members
+    i1 = add(_elem(4001, 'YEAR'), 2020)
+    i2 = add(_elem(4002, 'MONTH'), 2)
+    seq = Obj('SequenceNode', {'descriptor': Obj('SequenceDescriptor', {'id': 301011, 'name': 'DATE', 'members': []}),
+                               'members': [Obj('ValueDataNode', {'descriptor': descs[i1], 'index': i1}), Obj('ValueDataNode', {'descriptor': descs[i2], 'index': i2})]})
+    nodes.append(seq)
+    # delayed replication with factor and two repetitions of one member
+    fidx = add(_elem(31001, 'DELAYED DESCRIPTOR REPLICATION FACTOR'), 2)
+    m1 = add(_elem(7004, 'PRESSURE LEVEL'), 850)
+    m2 = add(_elem(7004, 'PRESSURE LEVEL'), 500)
+    rd = Obj('DelayedReplicationDescriptor', {'id': 101000, 'members': [descs[m1]], 'factor': descs[fidx]})
+    rep = Obj('DelayedReplicationNode', {'descriptor': rd, 'factor': Obj('ValueDataNode', {'descriptor': descs[fidx], 'index': fidx}),
+                                         'members': [Obj('ValueDataNode', {'descriptor': descs[m1], 'index': m1}), Obj('ValueDataNode', {'descriptor': descs[m2], 'index': m2})]})
+    nodes.append(rep)
+    # bitmapped quality value shown under its owner (virtual) and in place
+    q = add(_elem(33007, 'PER CENT CONFIDENCE', 'CODE TABLE'), 70)
+    qnode = Obj('QualityInfoNode', {'descriptor': descs[q], 'index': q})
+    nodes[5].fields['attributes'] = [qnode]
+    nodes.append(qnode)
+    # marker value
+    mk = add(Obj('MarkerDescriptor', {'id': 12101, 'name': 'TEMPERATURE', 'unit': 'K', 'nbits': 12, 'scale': 1, 'refval': 0, 'marker_id': 224255}), 3.5)
+    nodes.append(Obj('FirstOrderStatsNode', {'descriptor': descs[mk], 'index': mk}))
+    return nodes, descs, vals
+
+
+def rule_r5(repo):
+    rr = RuleResult('C09.R5', 'text renderings fold back to the flat values: every line kind and value shape, rendered and read back')
+    nodes, descs, vals = text_tree()
+    # ---- nested text
+    rn = repo.own_method('NestedTextRenderer', '_render_template_data_nodes')
+    rd = repo.func('utils', 'subsets_nested_text_to_flat_json')
+    it = TextInterp(repo, 'NestedTextRenderer')
+    res = it.run_function(rn, lambda: {'self': Obj('NestedTextRenderer', {}), 'decoded_nodes': list(nodes), 'decoded_descriptors': list(descs),
+                                       'decoded_values': list(vals), 'indent': ''}, self_class='NestedTextRenderer')
+    if len(res) != 1 or not res[0].ok or not isinstance(res[0].value, list) or not all(isinstance(x, str) for x in res[0].value):
+        raise AnalysisError('NestedTextRenderer._render_template_data_nodes could not be folded: %s' % [r.describe() for r in res])
+    lines = res[0].value
+    rr.instance('nested text: %d lines rendered from a tree with %d values' % (len(lines), len(vals)))
+    text = ['###### subset 1 of 1 ######'] + lines + ['<<<<<< section 5 >>>>>>']
+    it2 = TextInterp(repo, None)
+    res2 = it2.run_function(rd, lambda: {'lines': list(text), 'idxline': 0})
+    if len(res2) != 1:
+        raise AnalysisError('subsets_nested_text_to_flat_json forks on concrete lines')
+    r = res2[0]
+    want = [v for v in vals]
+    if not r.ok:
+        # which line?
+        rr.fail('nested-text:roundtrip', rd.where, 'reading the nested text back raises %s; rendered lines were:\n      %s' % (r.exc.cls, '\n      '.join(lines)),
+                witness={'lines': lines})
+    else:
+        got = r.value[1][0] if isinstance(r.value, tuple) and r.value[1] else r.value
+        if got != want:
+            diff = [(i, a, b) for i, (a, b) in enumerate(zip(got, want)) if a != b][:3] if isinstance(got, list) else got
+            rr.fail('nested-text:roundtrip', rd.where, 'the nested text reads back as %d values, the flat data have %d; first differences (index, read, flat): %s' % (
+                len(got) if isinstance(got, list) else -1, len(want), diff), witness={'lines': lines})
+    # one value shape at a time, so that a failing shape is named
+    vn = repo.own_method('NestedTextRenderer', '_render_template_data_value_node')
+    shapes = [0, 7, -3, 1.5, -0.25, 1e-05, 1e+20, None, b'ABC', b"ST JOHN'S", b'say "hi"', b'both \' and "', b'a b', b" b'x", b'\xe9\xff', b'', b'trailing ', b'#x', b'3', b'-> A']
+    for v in shapes:
+        d = _elem(1015, 'STATION OR SITE NAME', 'CCITT IA5', 160) if isinstance(v, bytes) else _elem(12101, 'TEMPERATURE/AIR TEMPERATURE')
+        node = Obj('ValueDataNode', {'descriptor': d, 'index': 0})
+        it = TextInterp(repo, 'NestedTextRenderer')
+        res = it.run_function(vn, lambda: {'self': Obj('NestedTextRenderer', {}), 'decoded_node': node, 'decoded_descriptors': [d], 'decoded_values': [v],
+                                           'indent': '    ', 'is_attribute': False}, self_class='NestedTextRenderer')
+        if len(res) != 1 or not res[0].ok:
+            raise AnalysisError('NestedTextRenderer value line could not be folded for %r' % (v,))
+        ln = res[0].value
+        it2 = TextInterp(repo, None)
+        res2 = it2.run_function(rd, lambda: {'lines': ['###### subset 1 of 1 ######'] + list(ln) + ['<<<<<< section 5 >>>>>>'], 'idxline': 0})
+        rr.instance('nested text value %r' % (v,))
+        r = res2[0]
+        got = r.value[1] if r.ok and isinstance(r.value, tuple) else None
+        if not r.ok or got != [[v]]:
+            rr.fail('nested-text:value-shape', rd.where, 'the value %r is rendered as %r and read back as %s' % (v, ln, got if r.ok else r.exc.cls), witness={'value': repr(v)})
+    # a 221YYY-skipped element is a value-less node whose descriptor has a name
+    skipped = [Obj('ValueDataNode', {'descriptor': _elem(1001, 'WMO BLOCK NUMBER'), 'index': 0}),
+               Obj('NoValueDataNode', {'descriptor': Obj('OperatorDescriptor', {'id': 221001})}),
+               Obj('NoValueDataNode', {'descriptor': _elem(12101, 'TEMPERATURE/AIR TEMPERATURE')}),
+               Obj('ValueDataNode', {'descriptor': _elem(1002, 'WMO STATION NUMBER'), 'index': 1})]
+    it = TextInterp(repo, 'NestedTextRenderer')
+    res = it.run_function(rn, lambda: {'self': Obj('NestedTextRenderer', {}), 'decoded_nodes': list(skipped),
+                                       'decoded_descriptors': [_elem(1001, 'WMO BLOCK NUMBER'), _elem(1002, 'WMO STATION NUMBER')],
+                                       'decoded_values': [5, 7], 'indent': ''}, self_class='NestedTextRenderer')
+    if len(res) != 1 or not res[0].ok:
+        raise AnalysisError('nested text of a 221 template could not be folded')
+    slines = res[0].value
+    it2 = TextInterp(repo, None)
+    res2 = it2.run_function(rd, lambda: {'lines': ['###### subset 1 of 1 ######'] + list(slines) + ['<<<<<< section 5 >>>>>>'], 'idxline': 0})
+    rr.instance('nested text of a template with a 221YYY-skipped element')
+    r = res2[0]
+    got = r.value[1] if r.ok and isinstance(r.value, tuple) else None
+    if not r.ok or got != [[5, 7]]:
+        rr.fail('nested-text:data-not-present-line', rd.where, 'an element skipped by 221YYY is rendered as the value-less line %r, which the nested-text reader takes '
+                'for a value line (%s)' % (slines[2] if len(slines) > 2 else slines, got if r.ok else 'raises ' + r.exc.cls), witness={'lines': slines})
+    # ---- flat text
+    fr = repo.own_method('FlatTextRenderer', '_render_template_data')
+    frd = repo.func('utils', 'subsets_flat_text_to_flat_json')
+    fl_descs = [_elem(1015, 'STATION OR SITE NAME', 'CCITT IA5', 160), _elem(12101, 'TEMPERATURE'), _elem(20004, 'PAST WEATHER', 'FLAG TABLE', 4),
+                Obj('AssociatedDescriptor', {'id': 10004, 'nbits': 4, 'unit': 'ASSOCIATED'}), _elem(10004, 'PRESSURE'), _elem(33007, 'PER CENT CONFIDENCE', 'CODE TABLE'),
+                Obj('OperatorDescriptor', {'id': 222000}), _elem(12102, 'A NAME THAT IS VERY LONG ' * 4), _elem(1019, 'LONG NAME', 'CCITT IA5', 80),
+                _elem(20004, 'PAST WEATHER', 'FLAG TABLE', 4)]
+    fl_vals = [b"ST JOHN'S", -2.5, 5, 3, 1013, 70, 0, None, b'(1, [2])', None]
+    td = Obj('TemplateDataStub', {'n_subsets': 1, 'decoded_descriptors_all_subsets': [fl_descs], 'bitmap_links_all_subsets': [{5: 1}],
+                                  'decoded_values_all_subsets': [fl_vals]})
+    it = TextInterp(repo, 'FlatTextRenderer')
+    res = it.run_function(fr, lambda: {'self': Obj('FlatTextRenderer', {}), 'template_data': td}, self_class='FlatTextRenderer')
+    if len(res) != 1 or not res[0].ok or not isinstance(res[0].value, str):
+        raise AnalysisError('FlatTextRenderer._render_template_data could not be folded: %s' % [r.describe() for r in res])
+    flines = res[0].value.split('\n')
+    rr.instance('flat text: %d lines rendered' % len(flines))
+    it2 = TextInterp(repo, None)
+    res2 = it2.run_function(frd, lambda: {'lines': flines + ['<<<<<< section 5 >>>>>>'], 'idxline': 0})
+    r = res2[0]
+    got = r.value[1] if r.ok and isinstance(r.value, tuple) else None
+    if not r.ok or got != [fl_vals]:
+        rr.fail('flat-text:roundtrip', frd.where, 'the flat text reads back as %s; the flat data are %s; lines:\n      %s' % (
+            got if r.ok else r.exc.cls, fl_vals, '\n      '.join(flines)), witness={'lines': flines})
+    rr.require_floor(20)
+    return rr
+
+
 def run(repo, check):
     check.run_rule(rule_r1, repo)
     check.run_rule(rule_r2, repo)
     check.run_rule(rule_r3, repo)
     check.run_rule(rule_r4, repo)
+    check.run_rule(rule_r5, repo)
     check.assumptions = ['each primitive appends exactly one flat entry (C01.R3 / C02.R5), so emissions count flat entries',
                          'conservation of the values of a particular message is a runtime fact and is not decided']
